@@ -33,6 +33,7 @@ import (
 	"net/http"
 	"strings"
 	"sync"
+	"sync/atomic"
 	"time"
 
 	"github.com/IrineSistiana/mosdns/v5/pkg/server"
@@ -46,6 +47,18 @@ const (
 	kindTCPAbort = "tcp-after-abort"
 	kindUDPAbort = "udp-after-abort"
 )
+
+// replies that keep getting lost in one kind of round are reported a few times
+// per run: after that the run does not wait for more of the same
+var hostileExpiries = map[string]*atomic.Int64{kindTCPAbort: {}, kindUDPAbort: {}}
+
+func hostileAbandoned(kind string) bool {
+	if hostileExpiries[kind].Load() >= 8 {
+		rep.Count("hostile_rounds_skipped_after_loss_"+kind, 1)
+		return true
+	}
+	return false
+}
 
 // cutPoint picks where a message of n bytes is cut: the boundary classes
 // (nothing, one byte, the ID, the header, all but one byte) or somewhere inside.
@@ -1050,6 +1063,7 @@ more:
 	}
 	if expired {
 		rep.Count("hostile_watchdog_expired_"+kindUDPAbort, 1)
+		hostileExpiries[kindUDPAbort].Add(1)
 	}
 	for i, u := range socks {
 		switch u.role {
@@ -1168,18 +1182,24 @@ func (b *built) hostilePhase(seed int64, cc compCase, rounds int) {
 		judgeAll(kindDoHAbort, qs, false, script, false)
 
 		// TCP
-		on()
-		t0 = time.Now()
-		qs, script, expired := b.hostileTCP(r, round)
-		rep.Count("hostile_ms_"+kindTCPAbort, time.Since(t0).Milliseconds())
-		off()
-		rep.Count("hostile_rounds_"+kindTCPAbort, 1)
-		if expired {
-			rep.Count("hostile_watchdog_expired_"+kindTCPAbort, 1)
+		if !hostileAbandoned(kindTCPAbort) {
+			on()
+			t0 = time.Now()
+			qs, script, expired := b.hostileTCP(r, round)
+			rep.Count("hostile_ms_"+kindTCPAbort, time.Since(t0).Milliseconds())
+			off()
+			rep.Count("hostile_rounds_"+kindTCPAbort, 1)
+			if expired {
+				rep.Count("hostile_watchdog_expired_"+kindTCPAbort, 1)
+				hostileExpiries[kindTCPAbort].Add(1)
+			}
+			judgeAll(kindTCPAbort, qs, false, script, expired)
 		}
-		judgeAll(kindTCPAbort, qs, false, script, expired)
 
 		// UDP
+		if hostileAbandoned(kindUDPAbort) {
+			continue
+		}
 		on()
 		t0 = time.Now()
 		qs, script, runtReplies, ok := b.hostileUDP(r, round)
